@@ -28,7 +28,7 @@ ListL(es)    == [k |-> "list", es |-> es]
 Index(o,i)   == [k |-> "index", o |-> o, i |-> i]
 TupL(es)     == [k |-> "tuple", es |-> es]
 QDef(l,r)    == [k |-> "qdef", l |-> l, r |-> r]              \* l ? r
-FStr(ps)     == [k |-> "fstr", parts |-> ps]                  \* parts: strings and Var(..)
+FStr(ps)     == [k |-> "fstr", parts |-> ps]                  \* parts: StrL(..) is literal text, anything else a hole
 Absent       == [k |-> "absent"]
 
 \* statements
